@@ -107,10 +107,30 @@ pub fn spell_bytes(rng: &mut Rng, decoded: &[u8], query: bool, respell: bool, li
     spell_bytes_v(rng, decoded, query, respell, literal_plus, false)
 }
 
+/// Reserved characters a client may leave unescaped in a path segment / a query name or value without
+/// changing what the component means (`http::Uri` admits them raw).
+pub fn raw_admissible(c: u8, query: bool) -> bool {
+    if query { b"!$'()*,;:@/?".contains(&c) } else { b"!$&'()*,;=:@".contains(&c) }
+}
+
 /// `raw_eq`: the bytes are a query *value*, where a literal '=' is an admissible spelling of '='.
 pub fn spell_bytes_v(rng: &mut Rng, decoded: &[u8], query: bool, respell: bool, literal_plus: bool, raw_eq: bool) -> Vec<u8> {
     let mut out = Vec::new();
-    for &c in decoded {
+    let mut skip = 0usize;
+    for (i, &c) in decoded.iter().enumerate() {
+        if skip > 0 {
+            skip -= 1;
+            continue;
+        }
+        // a multi-byte UTF-8 character may travel raw (http::Uri admits it in paths and queries)
+        if respell && c >= 0xc2 {
+            let n = if c >= 0xf0 { 4 } else if c >= 0xe0 { 3 } else { 2 };
+            if i + n <= decoded.len() && std::str::from_utf8(&decoded[i..i + n]).is_ok() && rng.chance(1, 2) {
+                out.extend_from_slice(&decoded[i..i + n]);
+                skip = n - 1;
+                continue;
+            }
+        }
         if !respell {
             if rs::unreserved(c) || (literal_plus && c == b'+' && !query) || (raw_eq && c == b'=') {
                 out.push(c);
@@ -127,6 +147,9 @@ pub fn spell_bytes_v(rng: &mut Rng, decoded: &[u8], query: bool, respell: bool, 
         } else if raw_eq && c == b'=' && r < 6 {
             out.push(b'=');
         } else if literal_plus && c == b'+' && !query {
+            out.push(c);
+        } else if r < 4 && raw_admissible(c, query) {
+            // reserved characters that may stand for themselves in this component
             out.push(c);
         } else if r % 2 == 0 {
             out.extend_from_slice(format!("%{:02X}", c).as_bytes());
@@ -188,10 +211,20 @@ pub fn random_logical(rng: &mut Rng) -> Logical {
         if seg == b"." || seg == b".." {
             seg.push(b'x');
         }
+        if rng.chance(1, 6) {
+            seg.extend_from_slice(*rng.pick(&[&b"\xc3\xa9"[..], b"\xe1\x88\xb4", b"\xf0\x9f\x98\x80"]));
+        }
         // literal '+' in a path is the recorded finding; keep decoded '+' (it is spelled %2B)
         segments.push(seg);
+        // S3 mode keeps every segment: empty and dot segments are data there
+        if s3 && rng.chance(1, 5) {
+            segments.push(rng.pick(&[&b""[..], b".", b".."]).to_vec());
+        }
     }
-    let trailing_slash = nseg > 0 && rng.chance(1, 5);
+    if s3 && segments.last().map(|s| s.is_empty()).unwrap_or(false) {
+        segments.push(b"k".to_vec());
+    }
+    let trailing_slash = !segments.is_empty() && rng.chance(1, 5);
     let names: [&[u8]; 9] = [b"a", b"a-", b"a.", b"b", b"Action", b"k 1", b"", b"\xc3\xa9", b"a0"];
     let mut query: Vec<(Vec<u8>, Vec<u8>)> = Vec::new();
     for _ in 0..rng.below(5) {
@@ -201,6 +234,17 @@ pub fn random_logical(rng: &mut Rng) -> Logical {
     }
     if rng.chance(1, 4) {
         query.push((b"Filter".to_vec(), rng.pick(&[&b"a=b"[..], b"b=c=d", b"=", b"x=="]).to_vec()));
+    }
+    if rng.chance(1, 10) {
+        // more pairs than small-slice sorting special cases cover, few names, distinct values
+        let np = 21 + rng.below(50);
+        for i in 0..np {
+            query.push((format!("n{}", rng.below(4)).into_bytes(), format!("v{:03}", (i * 37) % 101).into_bytes()));
+        }
+    }
+    if rng.chance(1, 10) {
+        // a '?' inside the query is data, also as the very first byte
+        query.insert(0, (rng.pick(&[&b"?b"[..], b"?", b"??x"]).to_vec(), b"2".to_vec()));
     }
     let fold = if s3 { rng.chance(1, 6) } else { rng.chance(1, 3) };
     let is_form = rng.chance(1, 3);
@@ -231,11 +275,11 @@ pub fn random_logical(rng: &mut Rng) -> Logical {
         (None, ct, body)
     };
     let mut headers: Vec<(String, Vec<u8>)> = vec![("Host".to_string(), b"example.amazonaws.com".to_vec())];
-    let hnames = ["X-Amz-Meta-A", "x-amz-meta-b", "Accept", "My-Header1", "X-Amz-Target", "User-Agent"];
-    for _ in 0..rng.below(4) {
+    let hnames = ["X-Amz-Meta-A", "x-amz-meta-b", "Accept", "My-Header1", "X-Amz-Target", "User-Agent", "X-Amz-Meta-A-Id", "My-Header1.x", "Tag", "Tag1", "X-Amz-Date-Local"];
+    for _ in 0..rng.below(5) {
         let n = rng.pick(&hnames).to_string();
         let l = rng.below(8);
-        let v: Vec<u8> = (0..l).map(|_| *rng.pick(b"abcXYZ019 ,;=\"/\xe9")).collect();
+        let v: Vec<u8> = (0..l).map(|_| *rng.pick(b"abcXYZ019 ,;=\"/\xe9\xc3\xa9\t\xa0")).collect();
         headers.push((n, v));
     }
     let mut signed = vec!["host".to_string()];
@@ -249,7 +293,7 @@ pub fn random_logical(rng: &mut Rng) -> Logical {
         signed.push("content-type".to_string());
     }
     // request instant: mostly 2015..2030, some at calendar boundaries
-    let base_days = *rng.pick(&[16677i64, 16678, 16860, 19782, 19783, 11016, 11017, 18262, 20088, 20147]);
+    let base_days = *rng.pick(&[16677i64, 16678, 16860, 19782, 19783, 11016, 11017, 18262, 20088, 20147, 17896, 16801, 18628, 16802, 18992]);
     let time_ns = (base_days as i128 * 86400 + rng.range(0, 86399) as i128) * 1_000_000_000
         + if rng.chance(1, 4) { rng.range(0, 999_999_999) as i128 } else { 0 };
     let off = if rng.chance(1, 2) { 0 } else { rng.range(-14 * 4, 14 * 4) * 900 };
@@ -296,8 +340,20 @@ fn form_body(rng: &mut Rng, pairs: &[(Vec<u8>, Vec<u8>)], sp: &Spelling) -> Vec<
 }
 
 /// Sign `l` with the reference signer and spell it on the wire. `now` is the server time to use.
+/// Bytes of a text whose characters are all below U+0100, one byte per character (how the crate reads
+/// header bytes and decoded query-carrier parameters); UTF-8 otherwise.
+pub fn latin1_bytes(s: &str) -> Vec<u8> {
+    if s.chars().all(|c| (c as u32) < 256) {
+        s.chars().map(|c| c as u32 as u8).collect()
+    } else {
+        s.as_bytes().to_vec()
+    }
+}
+
 pub fn sign_and_spell(l: &Logical, rng: &mut Rng, sp: &Spelling, now: (i64, u32)) -> Signed {
     let (compact, true_date) = rs::ref_compact(l.time_ns);
+    // standard mode: the logical path has no empty or dot segments (S3 mode keeps them as data)
+    let segs: Vec<Vec<u8>> = if l.s3 { l.segments.clone() } else { l.segments.iter().filter(|s| !s.is_empty() && s.as_slice() != b"." && s.as_slice() != b"..").cloned().collect() };
     let scope_date = l.scope_date_override.clone().unwrap_or_else(|| true_date.clone());
     let credential = format!("{}/{}/{}/{}/aws4_request", l.access_key, scope_date, l.region, l.service);
     let time_text = render_time(l.time_ns, l.time_style);
@@ -357,7 +413,7 @@ pub fn sign_and_spell(l: &Logical, rng: &mut Rng, sp: &Spelling, now: (i64, u32)
         }
         Carrier::Query => {
             auth_pairs.push((b"X-Amz-Algorithm".to_vec(), b"AWS4-HMAC-SHA256".to_vec()));
-            auth_pairs.push((b"X-Amz-Credential".to_vec(), credential.as_bytes().to_vec()));
+            auth_pairs.push((b"X-Amz-Credential".to_vec(), latin1_bytes(&credential)));
             auth_pairs.push((b"X-Amz-Date".to_vec(), time_text.as_bytes().to_vec()));
             if let Some(t) = &l.token {
                 auth_pairs.push((b"X-Amz-Security-Token".to_vec(), t.as_bytes().to_vec()));
@@ -392,9 +448,9 @@ pub fn sign_and_spell(l: &Logical, rng: &mut Rng, sp: &Spelling, now: (i64, u32)
 
     // --- reference canonical request
     let mut path = b"/".to_vec();
-    let enc: Vec<Vec<u8>> = l.segments.iter().map(|s| rs::encode(s)).collect();
+    let enc: Vec<Vec<u8>> = segs.iter().map(|s| rs::encode(s)).collect();
     path.extend(enc.join(&b'/'));
-    if l.trailing_slash && !l.segments.is_empty() {
+    if l.trailing_slash && !segs.is_empty() {
         path.push(b'/');
     }
     let mut pairs = l.query.clone();
@@ -430,10 +486,10 @@ pub fn sign_and_spell(l: &Logical, rng: &mut Rng, sp: &Spelling, now: (i64, u32)
 
     // --- wire spelling
     let mut wire_path: Vec<u8> = Vec::new();
-    if l.segments.is_empty() {
+    if segs.is_empty() {
         wire_path.push(b'/');
     }
-    for s in &l.segments {
+    for s in &segs {
         wire_path.push(b'/');
         if sp.path_noise && !l.s3 {
             match rng.below(4) {
@@ -445,7 +501,7 @@ pub fn sign_and_spell(l: &Logical, rng: &mut Rng, sp: &Spelling, now: (i64, u32)
         }
         wire_path.extend(spell_bytes(rng, s, false, sp.respell, sp.literal_plus_in_path));
     }
-    if l.trailing_slash && !l.segments.is_empty() {
+    if l.trailing_slash && !segs.is_empty() {
         wire_path.push(b'/');
     }
     let mut wire_pairs = l.query.clone();
@@ -474,14 +530,14 @@ pub fn sign_and_spell(l: &Logical, rng: &mut Rng, sp: &Spelling, now: (i64, u32)
         }
     }
     let wire_query = comps.join(&b'&');
-    let mut uri = String::from_utf8(wire_path).expect("spelled path is ASCII");
+    let mut uri = String::from_utf8(wire_path).expect("spelled path is UTF-8");
     if !wire_query.is_empty() {
         uri.push('?');
-        uri.push_str(std::str::from_utf8(&wire_query).expect("spelled query is ASCII"));
+        uri.push_str(std::str::from_utf8(&wire_query).expect("spelled query is UTF-8"));
     }
     if rng.chance(1, 6) {
         // absolute-form request target; with an empty path when the logical path is the root
-        if l.segments.is_empty() && rng.chance(1, 2) {
+        if segs.is_empty() && rng.chance(1, 2) {
             uri = format!("https://example.amazonaws.com{}", &uri[1..]);
         } else {
             uri = format!("https://example.amazonaws.com{}", uri);
@@ -501,7 +557,7 @@ pub fn sign_and_spell(l: &Logical, rng: &mut Rng, sp: &Spelling, now: (i64, u32)
         } else {
             format!("AWS4-HMAC-SHA256 {}", params.join(", "))
         };
-        headers.push(("Authorization".to_string(), auth.into_bytes()));
+        headers.push(("Authorization".to_string(), latin1_bytes(&auth)));
     }
     if sp.headers {
         // header-name case, redundant spaces around and inside values (never inside the Authorization
